@@ -112,7 +112,7 @@ def pk_roles(pk):
     return dict(R=R, K=K, V=V, L=L, FK=fk[0] if fk else None, SP=SP[0] if SP else None, kv=kv)
 
 
-def r13_3(run):
+def r13_3(run, ok_rule=True):
     pk = inline_local_helpers(run.idx.unit(MOD + '.parse_keywords'))
     g = cfg_of(pk)
     defs = local_defs(pk)
@@ -166,12 +166,23 @@ def r13_3(run):
         run.ob('R13.3', pk, t, 'no line of a value is dropped inside the line loop', False, slot='ok-line-dropped:any-position',
                message='parse_keywords skips every line that reads "OK", wherever it stands: a multi-line value (e.g. config-text) containing such a line comes back without it')
     pre = [t for t in walk_unit(pk) if isinstance(t, ast.Compare) and const(t.comparators[0]) == 'OK' and t not in inloop]
-    for t in pre:
+    for t in (pre if ok_rule else []):
         last = any(isinstance(x, ast.Subscript) and const(x.slice) == -1 for x in ast.walk(t.left))
         run.ob('R13.3', pk, t, 'a value whose last line reads "OK" keeps it', False if last else None, slot='ok-line-dropped:last-line',
                message='parse_keywords removes a trailing "OK" line as the reply terminator; after _broadcast_response has already cut the terminator off a '
                        'command reply, that line is the last line of the value (ambiguity kept because event payloads still carry their terminator)')
     run.ob('R13.3', pk, pk.node, 'OK-line handling examined', True)
+    # a plain store of a value never overwrites an earlier value of the same key: it sits on the "key not yet present" leg
+    # (in either line mode - the one-line-per-value mode is what CONF_CHANGED events are parsed with)
+    for s_ in vals:
+        if isinstance(s_.value, ast.List):
+            continue
+        for n in g.nodes_containing(s_):
+            gd = g.guarded_by(n, lambda t: isinstance(t, ast.Compare) and len(t.ops) == 1 and isinstance(t.ops[0], (ast.In, ast.NotIn)) and dotted(t.comparators[0]) == R
+                              and src(t.left) == src(s_.targets[0].slice))
+            okn = any((lab == 'F') == isinstance(t.ast.ops[0], ast.In) for t, lab in gd)
+            run.ob('R13.3', pk, s_, 'a value is stored plainly only when its key is not present yet', okn, slot='store-no-overwrite',
+                   message='parse_keywords assigns %s without testing whether the key already has a value: an option reported several times loses its earlier values' % src(s_)[:50])
     # repeated keys accumulate in arrival order: [old, new] then append
     lists = [s for s in stores if isinstance(s.value, ast.List) and len(s.value.elts) == 2]
     ok = bool(lists) and all(isinstance(s.value.elts[0], ast.Subscript) and dotted(s.value.elts[0].value) == R and any(isinstance(x, ast.Name) and x.id == V for x in ast.walk(s.value.elts[1])) for s in lists)
@@ -356,6 +367,7 @@ RULES = [
 from ..selftest import M  # noqa: E402
 F = 'txtorcon/torcontrolprotocol.py'
 MUTANTS = [
+    M('oneline-mode-overwrites', F, "            elif multiline_values is False:\n                # (same as above: an earlier line for this key must\n                # not be lost)\n                if key in rtn:\n                    if isinstance(rtn[key], list):\n                        rtn[key].append(value)\n                    else:\n                        rtn[key] = [rtn[key], value]\n                else:\n                    rtn[key] = value\n", "            elif multiline_values is False:\n                rtn[key] = value\n", ['R13.3']),
     M('ok-skipped-anywhere', F, "    for line in all_lines:\n", "    for line in all_lines:\n        if line.strip() == 'OK':\n            continue\n", ['R13.3']),
     M('splitlines', F, "    all_lines = lines.split('\\n')", "    all_lines = lines.splitlines() or ['']", ['R13.6']),
     M('unquote-by-strip', F, "    if word[0] == '\"' and word[-1] == '\"':\n        return word[1:-1]", "    if word[0] == '\"' and word[-1] == '\"':\n        return word.strip('\"')", ['R13.6']),
